@@ -210,7 +210,7 @@ private:
       default:
         throw std::logic_error(exc_prefix(id) + "invalid integer format");
     }
-    if (*conversion_end != '\0') {
+    if (conversion_end != text.c_str() + text.size()) {
       throw std::invalid_argument(exc_prefix(id) + "extra data after integer");
     }
 
@@ -244,7 +244,7 @@ private:
     if (conversion_end == text.c_str()) {
       throw std::invalid_argument(exc_prefix(id) + "value is not a number");
     }
-    if (*conversion_end != '\0') {
+    if (conversion_end != text.c_str() + text.size()) {
       throw std::invalid_argument(exc_prefix(id) + "extra data after number");
     }
     return v;
